@@ -284,6 +284,7 @@ func c15RunOnce(in c15In) ([]string, []c15Obs, uint64, bool, error) {
 		raw []int
 	}
 	var kept []keptSlice
+	var keptStates [][2]any
 	keptIntact := func() error {
 		for k, ks := range kept {
 			for i, v := range ks.raw {
@@ -360,9 +361,19 @@ func c15RunOnce(in c15In) ([]string, []c15Obs, uint64, bool, error) {
 			}
 			kept = append(kept, keptSlice{op.Op, out})
 		case "restore":
-			p2, err := random.RestoreChacha20PRG(prg.Store())
+			// the checkpoint is a value: kept un-copied, compared at the end with what it read when taken; the
+			// ORIGINAL generator draws once more and stores again before the restored one takes over
+			ck := prg.Store()
+			ckHex := hx(ck)
+			keptStates = append(keptStates, [2]any{ck, ckHex})
+			p2, err := random.RestoreChacha20PRG(ck)
 			if err != nil {
 				return nil, nil, 0, false, implViolation("RestoreChacha20PRG(Store()) failed: %v", err)
+			}
+			_ = prg.UintN(1 << 20)
+			_ = prg.Store()
+			if hx(ck) != ckHex {
+				return nil, nil, 0, false, implViolation("the state returned by Store() changed from %s to %s after a later draw and Store() on the same generator", ckHex, hx(ck))
 			}
 			prg = p2
 		case "samples", "shuffle":
@@ -431,6 +442,11 @@ func c15RunOnce(in c15In) ([]string, []c15Obs, uint64, bool, error) {
 	}
 	if err := keptIntact(); err != nil {
 		return nil, nil, 0, false, err
+	}
+	for k, ks := range keptStates {
+		if hx(ks[0].([]byte)) != ks[1].(string) {
+			return nil, nil, 0, false, implViolation("the state returned by Store() call #%d read %s when taken and %s at the end", k, ks[1], hx(ks[0].([]byte)))
+		}
 	}
 	st := prg.Store()
 	consumed := binary.LittleEndian.Uint64(st[len(st)-8:]) - in.Start
